@@ -233,10 +233,19 @@ pub fn execute_corrupt(plan: &Plan, seed: u64, cases: usize, only: Option<&Extra
         harness_panic: false,
         known: vec![],
     };
+    let mut rng = Rng::new(seed);
+    // the closed image to damage: the cleanly closed file, or (one run in three) the file as a
+    // power loss at the end of the run leaves it, with nothing un-synced surviving
+    let crash_base = rng.chance(1, 3);
     let mut base = Exec::new(plan.cfg.clone(), Mode::Strict);
+    let mut crash_image = None;
     let r = catch_unwind(AssertUnwindSafe(|| {
         base.run(plan);
-        base.finish();
+        if crash_base && base.viols.is_empty() && base.db.is_some() {
+            crash_image = Some(base.crash_now(&crate::disk::CrashChoice::NoneKept));
+        } else {
+            base.finish();
+        }
     }));
     out.known.extend(base.known.iter().cloned());
     add_exec(&mut out.exec, &base.stats);
@@ -249,11 +258,13 @@ pub fn execute_corrupt(plan: &Plan, seed: u64, cases: usize, only: Option<&Extra
         ));
         return out;
     }
-    let image = base.disk.st().live.clone();
+    let image = match crash_image {
+        Some(i) => i,
+        None => base.disk.st().live.clone(),
+    };
     if image.is_empty() {
         return out;
     }
-    let mut rng = Rng::new(seed);
     let alts: Vec<Alteration> = match only {
         Some(Extra::Corrupt(a)) => vec![a.clone()],
         Some(_) => vec![],
